@@ -2,9 +2,33 @@
 """collect_seeded.py <id> [<id>…] : builds /verif/seeded/<id>/ (patch.diff, demonstration, meta.json)
 from the deliverables of the independent sub-agent in /tmp/seeded/<id>/ and the recorded seedtest runs."""
 import sys, os, json, shutil, re
-for pid in sys.argv[1:]:
-    src = "/tmp/seeded/%s" % pid
-    dst = "/verif/seeded/%s" % pid
+def needs(notes):
+    """the section of the author's notes that says what it takes for the change to show"""
+    lines = notes.split("\n")
+    out, on = [], False
+    for l in lines:
+        if re.match(r"^\s*(#+|\*\*)", l):
+            if on:
+                break
+            if re.search(r"(?i)manifest|needs|takes|show up|to trigger", l):
+                on = True
+                # text after a bold heading on the same line
+                t = re.sub(r"^\s*\*\*[^*]*\*\*:?", "", l).strip() if l.lstrip().startswith("**") else ""
+                if t:
+                    out.append(t)
+                continue
+        if on:
+            out.append(l)
+    return "\n".join(out).strip()[:2000]
+
+args = sys.argv[1:]
+rnd = 1
+if args and args[0] == "--round":
+    rnd = int(args[1])
+    args = args[2:]
+for pid in args:
+    src = "/tmp/seeded%s/%s" % ("" if rnd == 1 else str(rnd), pid)
+    dst = "/verif/seeded/%s%s" % (pid, "" if rnd == 1 else "-r%d" % rnd)
     os.makedirs(dst, exist_ok=True)
     shutil.copy(os.path.join(src, "patch.diff"), dst)
     demos = [f for f in os.listdir(src) if f.endswith(".go")]
@@ -16,12 +40,17 @@ for pid in sys.argv[1:]:
     runs = json.load(open(os.path.join(src, "seedtest.json"))) if os.path.exists(os.path.join(src, "seedtest.json")) else []
     notes = open(os.path.join(src, "notes.md")).read() if os.path.exists(os.path.join(src, "notes.md")) else ""
     last = runs[-1] if runs else {}
+    if not notes:
+        notes = ""
     meta = {
         "property": pid,
+        "round": rnd,
         "written_by": "independent sub-agent given only the property text and a scratch worktree of /repo",
-        "needs_to_manifest": (re.search(r"(?is)(what (?:it )?(?:takes|needs)[^\n]*\n.*?)(?:\n#|\n\*\*[A-Z]|\Z)", notes) or [None, ""])[1][:1500].strip(),
+        "needs_to_manifest": needs(notes),
         "confirmed": {k: last.get(k) for k in ("applies", "builds", "suite_passes_with_change", "demo_fails_with_change", "demo_passes_without_change", "demo_cmd")},
         "checks_run": [r for run in runs for r in run.get("ran", [])],
+        # (round 1 runs were not recorded from the start: which changes were missed at first is in DESIGN.md 7.1)
+        "caught_at_first_run": (bool(runs) and any(r["exit"] == 1 for r in runs[0].get("ran", []))) if rnd > 1 else "see DESIGN.md 7.1",
         "caught_by": sorted(set(r["check"] for run in runs for r in run.get("ran", []) if r["exit"] == 1)),
     }
     json.dump(meta, open(os.path.join(dst, "meta.json"), "w"), indent=1)
